@@ -23,6 +23,9 @@ namespace worlds
     bool depth_points = false;           // continental max depth and mantle-layer min depth given as values at points
     bool area_only = false;              // no plume, slab or fault
     bool multi_ridge = false;            // oceanic plate: two oblique ridge segments offset along a transform fault, spreading velocity varying along them
+    int slab_model = 0;                  // 0: plate model; 1: mass conserving; 2: mass conserving with a spline of 4 points
+    bool second_slab = false;            // a second, short slab in the north-west (mass conserving, spline of 9 points) dipping west
+    bool partial = false;                // features only partly replace what the features before them left: 'add' operations, slab / fault models limited to part of the thickness
   };
 
   inline std::string uniform_grains(const std::string &comps, int n, double a0)
@@ -52,8 +55,8 @@ namespace worlds
                 ",\"grains models\":[" + uniform_grains("[0,1]", 2, 10) + "]"
                 ",\"velocity models\":[{\"model\":\"uniform raw\",\"velocity\":[0.01,0.02,0.03]}]}");
     f.push_back("{\"model\":\"continental plate\",\"name\":\"CP\",\"max depth\":" + (o.depth_points ? "[[1.5e5],[0.9e5,[" + P(-2.5,0) + "," + P(-5,5) + "]],[2.1e5,[" + P(-1,-3) + "]]]" : std::string("1.5e5")) + ",\"coordinates\":" + sq(-5,0,-5,5) +
-                ",\"temperature models\":[{\"model\":\"linear\",\"max depth\":1.5e5,\"top temperature\":300,\"bottom temperature\":1400}]"
-                ",\"composition models\":[{\"model\":\"uniform\",\"compositions\":[0]}]"
+                ",\"temperature models\":[{\"model\":\"linear\",\"max depth\":1.5e5,\"top temperature\":300,\"bottom temperature\":1400" + std::string(o.partial ? ",\"operation\":\"add\"" : "") + "}]"
+                ",\"composition models\":[{\"model\":\"uniform\",\"compositions\":[0]" + std::string(o.partial ? ",\"operation\":\"add\"" : "") + "}]"
                 ",\"grains models\":[" + uniform_grains("[0]", 1, 15) + (o.random_models ? ",{\"model\":\"random uniform distribution\",\"compositions\":[1],\"grain sizes\":[-1],\"normalize grain sizes\":[true]}" : "") + "]"
                 ",\"velocity models\":[{\"model\":\"uniform raw\",\"velocity\":[-0.04,0.05,0.001]}]}");
     f.push_back("{\"model\":\"oceanic plate\",\"name\":\"OP\",\"max depth\":1e5,\"coordinates\":" + sq(0,5,-5,5) +
@@ -73,16 +76,24 @@ namespace worlds
                 ",\"velocity models\":[{\"model\":\"uniform raw\",\"velocity\":[0,0,0.1]}]}");
     f.push_back("{\"model\":\"subducting plate\",\"name\":\"SL\",\"coordinates\":[" + P(1,-4) + "," + P(1.2,0) + "," + P(1,4) + "],\"dip point\":" + P(20,0) +
                 ",\"segments\":[{\"length\":2e5,\"thickness\":[8e4],\"angle\":[30,60]},{\"length\":1.5e5,\"thickness\":[8e4,6e4],\"angle\":[60]}]"
-                ",\"temperature models\":[{\"model\":\"plate model\",\"density\":3300,\"plate velocity\":0.02,\"adiabatic heating\":" + std::string(o.variant == 1 ? "false" : "true") + "}]"
-                ",\"composition models\":[{\"model\":\"uniform\",\"compositions\":[0,2],\"fractions\":[0.5,0.5]}]"
+                ",\"temperature models\":[" + (o.slab_model == 0 ? "{\"model\":\"plate model\",\"density\":3300,\"plate velocity\":0.02,\"adiabatic heating\":" + std::string(o.variant == 1 ? "false" : "true") + std::string(o.partial ? ",\"max distance slab top\":3.5e4" : "") + "}"
+                                                : "{\"model\":\"mass conserving\",\"density\":3300,\"spreading velocity\":0.05,\"subducting velocity\":0.05,\"ridge coordinates\":[[" + P(-4.5,-6) + "," + P(-4.5,6) + "]],\"coupling depth\":8e4,\"taper distance\":5e4,"
+                                                "\"min distance slab top\":-1e5,\"max distance slab top\":1.5e5" + std::string(o.slab_model == 2 ? ",\"apply spline\":true,\"number of points in spline\":4" : "") + "}") + "]"
+                ",\"composition models\":[{\"model\":\"uniform\",\"compositions\":[0,2],\"fractions\":[0.5,0.5]" + std::string(o.partial ? ",\"max distance slab top\":5e4" : "") + "}]"
                 ",\"grains models\":[" + uniform_grains("[0]", 1, 45) + "]"
                 ",\"velocity models\":[{\"model\":\"uniform raw\",\"velocity\":[0.03,0,-0.03]}]}");
     f.push_back("{\"model\":\"fault\",\"name\":\"FA\",\"coordinates\":[" + P(-4,-1) + "," + P(-1,-1.5) + "],\"dip point\":" + P(0,-20) +
                 ",\"segments\":[{\"length\":1.2e5,\"thickness\":[6e4],\"angle\":[70]}]"
-                ",\"temperature models\":[{\"model\":\"linear\",\"max distance fault center\":3e4,\"center temperature\":900,\"side temperature\":1100}]"
+                ",\"temperature models\":[{\"model\":\"linear\",\"max distance fault center\":" + std::string(o.partial ? "1.2e4" : "3e4") + ",\"center temperature\":900,\"side temperature\":1100}]"
                 ",\"composition models\":[{\"model\":\"smooth\",\"compositions\":[1],\"side distance fault center\":3e4,\"center fractions\":[1.0],\"side fractions\":[0.25]}]"
                 ",\"grains models\":[" + uniform_grains("[1]", 1, 55) + "]"
                 ",\"velocity models\":[{\"model\":\"uniform raw\",\"velocity\":[0.001,0.002,0.003]}]}");
+    if (o.second_slab)
+      f.push_back("{\"model\":\"subducting plate\",\"name\":\"SL2\",\"coordinates\":[" + P(-3.5,2.5) + "," + P(-3.4,4.5) + "],\"dip point\":" + P(-20,3) +
+                  ",\"segments\":[{\"length\":2.5e5,\"thickness\":[9e4],\"top truncation\":[-5e4],\"angle\":[50]}]"
+                  ",\"temperature models\":[{\"model\":\"mass conserving\",\"density\":3300,\"spreading velocity\":0.03,\"subducting velocity\":0.04,\"ridge coordinates\":[[" + P(4.5,-6) + "," + P(4.5,6) + "]],\"coupling depth\":6e4,\"taper distance\":4e4,"
+                  "\"min distance slab top\":-5e4,\"max distance slab top\":1.2e5,\"apply spline\":true,\"number of points in spline\":9}]"
+                  ",\"composition models\":[{\"model\":\"uniform\",\"compositions\":[2]}]}");
     if (o.area_only) f.resize(3);
     std::string m = coord(o.spherical);
     auto MC = [&](const P2 &q) { return o.map ? o.map(q) : q; };
